@@ -6,7 +6,7 @@ byte-level snapshots, C01 invariants, C09 reference semantics, C20 render checks
 
 import numpy as np
 
-DTYPES = ["bool", "int", "float", "str", "fixed", "date", "datetime", "object"]
+DTYPES = ["bool", "int", "float", "str", "fixed", "date", "datetime", "object", "timedelta"]
 
 STRS = ["", "a", "b", "bb", "Zed", "ünï", "日本", "wide\U0001d4b3", "line\nbreak", "x" * 55, "y" * 50 + "z",
         "a b", "é"]
@@ -37,6 +37,12 @@ def build_column(dtype, values):
         return np.array(["NaT" if v is None else v for v in values], "datetime64[us]")
     if dtype == "object":
         return np.array(list(values) + [None], object)[:-1]
+    if dtype == "timedelta":
+        arr = np.array([0 if v is None else v for v in values], "int64").astype("timedelta64[s]")
+        for i, v in enumerate(values):
+            if v is None:
+                arr[i] = np.timedelta64("NaT")
+        return arr
     raise AssertionError(dtype)
 
 
@@ -58,6 +64,8 @@ def gen_values(r, dtype, n, na_rate):
             out.append(r.choice(DATES))
         elif dtype == "datetime":
             out.append(r.choice(DATETIMES))
+        elif dtype == "timedelta":
+            out.append(r.choice([0, 60, 3600, -5, 86400]))
         else:
             out.append(r.choice([1, "a", 2.5, True, None, (1, 2)]))
     if dtype == "object":
@@ -96,6 +104,8 @@ def col_values(col):
     for v, m in zip(col, na):
         if m:
             out.append(None)
+        elif isinstance(v, np.timedelta64):
+            out.append(int(v // np.timedelta64(1, "s")))       # generated values are whole seconds
         elif isinstance(v, np.generic):
             out.append(v.item() if not isinstance(v, np.datetime64) else str(v))
         else:
@@ -153,6 +163,18 @@ def check_access(di, data, present, removed, builtin, where):
                 bad.append(("present-attr-missing", f"{where}: hasattr(data, {n!r}) is False"))
             elif getattr(data, n) is not col:
                 bad.append(("attr-differs-from-key", f"{where}: data.{n} is not data[{n!r}]"))
+    for n in set(present) | set(removed):
+        if n in builtin and n.isidentifier():
+            try:
+                got = getattr(data, n)
+            except Exception as e:
+                bad.append(("method-named-attribute-raises", f"{where}: data.{n} raised {e!r}"))
+                continue
+            if isinstance(got, di.DataFrameColumn) or got is di.DataFrame.COLUMN_PLACEHOLDER:
+                bad.append(("method-shadowed-by-column",
+                            f"{where}: data.{n} is {type(got).__name__ if not isinstance(got, type) else got.__name__}, "
+                            f"not the DataFrame attribute of that name (column names that clash with "
+                            f"methods are reachable by key only)"))
     for n in removed:
         if n in present:
             continue
